@@ -23,7 +23,32 @@ func randAddr(rng *rand.Rand, v6 bool) netip.Addr {
 		for i := range b {
 			b[i] = byte(rng.UintN(256))
 		}
-		// cluster: often share a documentation prefix so ranges interact
+		// cluster: often share a documentation prefix so ranges interact;
+		// sometimes sit at the very bottom (::/96, v4-compatible and v4-mapped
+		// numerals) or top of the space, where the two families' numeric keys
+		// coincide and a cross-family aliasing bug would show
+		switch rng.IntN(8) {
+		case 0:
+			for i := 0; i < 12; i++ {
+				b[i] = 0
+			}
+			if rng.IntN(2) == 0 {
+				b[12], b[13], b[14] = 0, 0, 0
+				b[15] = byte(rng.UintN(4))
+			}
+			return netip.AddrFrom16(b)
+		case 1:
+			for i := 0; i < 10; i++ {
+				b[i] = 0
+			}
+			b[10], b[11] = 0xff, 0xff // v4-mapped literal (as a v6 CIDR it is unmapped by callers or not)
+			return netip.AddrFrom16(b)
+		case 2:
+			for i := 0; i < 8+rng.IntN(8); i++ {
+				b[i] = 0xff
+			}
+			return netip.AddrFrom16(b)
+		}
 		if rng.IntN(3) > 0 {
 			copy(b[:], []byte{0x20, 0x01, 0x0d, 0xb8})
 			for i := 4; i < 4+rng.IntN(10); i++ {
@@ -161,6 +186,19 @@ func pureMembership(r *vlib.Run) {
 				if x := hi.Next(); x.IsValid() {
 					probes = append(probes, netip.AddrFrom16(x.As16()))
 				}
+				// cross-family numerals: the IPv6 address whose low 32 bits equal this
+				// IPv4 boundary (v4-compatible form ::a.b.c.d) is NOT in an IPv4 prefix
+				for _, a4 := range []netip.Addr{lo, hi} {
+					var b [16]byte
+					copy(b[12:], a4.AsSlice())
+					probes = append(probes, netip.AddrFrom16(b))
+				}
+			} else if lo.Is6() && !lo.Is4In6() {
+				// and the IPv4 address made of an IPv6 boundary's low 32 bits
+				for _, a6 := range []netip.Addr{lo, hi} {
+					b := a6.As16()
+					probes = append(probes, netip.AddrFrom4([4]byte{b[12], b[13], b[14], b[15]}))
+				}
 			}
 		}
 		for i := 0; i < 60; i++ {
@@ -172,6 +210,7 @@ func pureMembership(r *vlib.Run) {
 		}
 		probes = append(probes, netip.Addr{}, netip.MustParseAddr("0.0.0.0"), netip.MustParseAddr("255.255.255.255"),
 			netip.MustParseAddr("::"), netip.MustParseAddr("ffff:ffff:ffff:ffff:ffff:ffff:ffff:ffff"),
+			netip.MustParseAddr("::1"), netip.MustParseAddr("::2"), netip.MustParseAddr("::7fff:ffff"), netip.MustParseAddr("::1:0:0"),
 			netip.MustParseAddr("::ffff:0.0.0.0"), netip.MustParseAddr("::ffff:255.255.255.255"), netip.MustParseAddr("fe80::1%lo"))
 		in, out := 0, 0
 		for _, a := range probes {
